@@ -153,7 +153,7 @@ def run_domain(pid, domain, seed, tier, tag=''):
     return dict(lines=lines, answers=answers, stats=st, script=script)
 
 
-def diff_streams(lines, answers):
+def diff_streams(lines, answers, per_op_kind=False):
     """Yield failures: dict(kind, line_no, case_start, op, impl, model, spec)."""
     fails = []
     if len(lines) != len(answers):
@@ -183,15 +183,23 @@ def diff_streams(lines, answers):
         if ' => ' not in l:
             continue
         op, impl = l.split(' => ', 1)
-        if spec != '*' and norm_err(impl) != norm_err(spec):
-            if case_start in violated_cases:
+        # "<result> | <request trace>": the specification speaks about the result only; a request
+        # the registry's validator refused (BADREQ) violates the property whatever the result
+        impl_res = impl.split(' | ')[0] if (' | ' in impl and ' | ' not in spec) else impl
+        if impl.startswith('BADREQ') or (spec != '*' and norm_err(impl_res) != norm_err(spec)):
+            # one violation per case (later ones may be consequences of the first); for domains whose
+            # known findings are read-only calls, one per case and call kind, so that a known finding
+            # does not hide a different violation later in the same history
+            vkey = (case_start, ' '.join(op.split()[:2])) if per_op_kind else case_start
+            if vkey in violated_cases:
                 continue
+            violated_cases.add(vkey)
             violated_cases.add(case_start)
             # a property-level violation supersedes an earlier drift in the same case
             fails[:] = [f for f in fails if not (f['kind'] == 'drift' and f['case_start'] == case_start)]
             fails.append(dict(kind='violation', line_no=i, case_start=case_start, op=op, impl=impl, model=model, spec=spec, why=why))
         elif impl != model:
-            if case_start in failed_cases or case_start in violated_cases:
+            if case_start in failed_cases or case_start in violated_cases:  # (case_start is added on any violation)
                 continue
             failed_cases.add(case_start)
             fails.append(dict(kind='drift', line_no=i, case_start=case_start, op=op, impl=impl, model=model, spec=spec, why=why))
@@ -358,7 +366,7 @@ def check(pid, tier, seed, replay=None):
                 for k, v in st.items():
                     if k not in ('cases', 'lines', 'distinct_nontrivial', 'distribution', 'samples', 'evaluations', 'traces_validated'):
                         extra[k] = v
-                fails = diff_streams(out['lines'], out['answers'])
+                fails = diff_streams(out['lines'], out['answers'], per_op_kind=prop.get('per_op_kind', False))
                 fails.sort(key=lambda f: 0 if f['kind'] == 'protocol' else 1 if f['kind'] == 'violation' else 2)
                 reported = 0
                 for f in fails:
